@@ -7,17 +7,19 @@ from .common import *
 from .tables import is_true, is_false, pin
 
 EXPLANATION = (
-    "Static clauses: (R1) all five pseudo-legal generators run on every path before the legality filter, which is the "
-    "last thing to touch the list; pawn generation reaches en-passant generation; (R2) the filter, per candidate: apply, "
-    "then locate the mover's king and compute the opponent's attack map on the board AFTER the move, then undo, and keep "
-    "the move iff the king is not attacked; (R3) castling is offered under exactly the FIDE guard set per colour and "
-    "wing (right held, king not in check, transit square not attacked, squares between empty) with the FIDE squares; "
-    "(R4) pawn geometry by finite evaluation of the extracted shift/mask terms: attack sets, en-passant origin/target "
-    "relation (no a/h-file wrap), single/double pushes for every pawn square and blocker configuration; (R5) the "
-    "attack map unions pawn, sliding (rook/bishop/queen = rook|bishop), knight and king contributions; (R6) targets "
-    "exclude own pieces; (R7) promotions: exactly {Q,R,B,N}, on the last rank of the mover; (R8) captures are annotated "
-    "from the opponent's piece set and en passant is generated from the current target only; (R9) sliders see the "
-    "whole-board occupancy. Equality of the generated set with the FIDE set for every position is NOT decided.")
+    'Static clauses: (R1) all five pseudo-legal generators run on every path before the legality filter, which is the last thing to '
+    "touch the list; pawn generation reaches en-passant generation; (R2) the filter, per candidate: apply, then locate the mover's king"
+    " and compute the opponent's attack map on the board AFTER the move, then undo, and keep the move iff the king is not attacked; "
+    '(R3) castling is offered under exactly the FIDE guard set per colour and wing (right held, king not in check, transit square not '
+    'attacked, squares between empty) with the FIDE squares; (R4) pawn geometry by finite evaluation of the extracted shift/mask terms:'
+    ' attack sets, en-passant origin/target relation (no a/h-file wrap), single/double pushes for every pawn square and blocker '
+    'configuration; (R5) the attack map unions pawn, sliding (rook/bishop/queen = rook|bishop), knight and king contributions; (R6) '
+    'targets exclude own pieces; (R7) promotions: exactly {Q,R,B,N}, on the last rank of the mover; (R8) captures are annotated from '
+    "the opponent's piece set and en passant is generated from the current target only; (R9) sliders see the whole-board occupancy. "
+    'Equality of the generated set with the FIDE set for every position is NOT decided. R1 also requires that nothing but the five '
+    'generators and the filter touches the candidate list between its creation and its return (no pre-filter, truncation or reordering '
+    'in between).'
+)
 ASSUMPTIONS = [
     "apply/undo are correct (C03, C04), the attack tables are correct (C11)",
     "rustc MIR construction and the chessfacts extractor are faithful",
